@@ -25,6 +25,52 @@ def parse_dec(s):
     return -v if neg else v
 
 
+
+def addr_ok(s):
+    return 3 <= len(s) <= 90 and s == s.lower() and "\x00" not in s
+
+
+def rate_parses(s):
+    """plain decimal strings only; None when the spelling is outside what this oracle can judge"""
+    if s == "" or s in ("+", "-", ".", "-.", "+."):
+        return False
+    t = s.replace("_", "")
+    if not all(ch in "0123456789.+-" for ch in t):
+        return None if any(ch in "eE" for ch in t) else False
+    v = parse_dec(s)
+    if v is None:
+        return False
+    digits = t.lstrip("+-").replace(".", "")
+    return True if len(digits) <= 28 and s[0] != "_" and not s.endswith("_") and ".." not in s else None
+
+
+def pair_coherent(rate, acct):
+    """None = cannot judge"""
+    if (rate is None) != (acct is None):
+        return False
+    if rate is None:
+        return True
+    if rate == "" and acct == "":
+        return True
+    rp = rate_parses(rate)
+    if rp is None:
+        return None
+    return rp and addr_ok(acct)
+
+
+def inst_coherent(t):
+    """t = tokens after 'INST sender': name base conv quotes approvers executors afr afa bfr bfa aattrs battrs precision increment"""
+    name, base = fmt.dec(t[0]), fmt.dec(t[1])
+    quotes, apprs, execs = fmt.dlist(t[3]), fmt.dlist(t[4]), fmt.dlist(t[5])
+    afr, afa, bfr, bfa = fmt.dopt(t[6]), fmt.dopt(t[7]), fmt.dopt(t[8]), fmt.dopt(t[9])
+    p, inc = int(t[12]), int(t[13])
+    pa, pb = pair_coherent(afr, afa), pair_coherent(bfr, bfa)
+    if pa is None or pb is None:
+        return None
+    return bool(name and base and quotes and execs and p <= 18 and inc >= 1 and inc % (10 ** min(p, 40)) == 0 and pa and pb
+                and all(addr_ok(a) for a in apprs) and all(addr_ok(a) for a in execs))
+
+
 class Ev:
     """decoded EV line of an EXEC/PEXEC"""
 
@@ -172,7 +218,8 @@ def project(prop, b, ev, ctx):
     elif prop == "C04":
         if is_exec and sub in REVERSE:
             ai, bi = ev.ids()
-            val = (flows(b, ev), tuple(ask_amounts(b.asks[i]) if i in b.asks else None for i in ai),
+            val = (flows(b, ev), tuple(sorted(repr(shape(m)) for m in b.msgs)),
+                   tuple(ask_amounts(b.asks[i]) if i in b.asks else None for i in ai),
                    tuple(bid_amounts(b.bids[i]) if i in b.bids else None for i in bi))
             explicit = sub in ("reject_ask", "reject_bid") and len(ev.args) > 1 and ev.args[1] != "-"
             return (None, (ok, val)) if explicit else (ok, val)
@@ -182,8 +229,8 @@ def project(prop, b, ev, ctx):
     elif prop == "C06":
         if k == "PEXEC" and sub in ("cancel_ask", "cancel_bid", "expire_ask", "expire_bid"):
             ai, bi = ev.ids()
-            return (None, (ok, flows(b, ev), tuple(i in b.asks for i in ai) if ok else (),
-                           tuple(i in b.bids for i in bi) if ok else ()))
+            return (None, (ok, flows(b, ev), tuple(sorted(repr(shape(m)) for m in b.msgs)) if ok else (),
+                           tuple(i in b.asks for i in ai) if ok else (), tuple(i in b.bids for i in bi) if ok else ()))
     elif prop == "C07":
         if is_exec and sub in ("create_ask", "create_bid"):
             return (None, (ok, tuple(b.msgs), book_lines(b)))
@@ -256,6 +303,7 @@ class Oracle:
         self.started = False     # an accepted INST seen (C01 ledger histories)
         self.seeded = False
         self.closed = set()
+        self.meta_version = getattr(self, "meta_version", None)
 
     def restricted(self, d):
         return self.markers.get(d) == "R"
@@ -318,6 +366,12 @@ class Oracle:
     def feed(self, b, ev):
         out = []
         k = ev.kind
+        if k == "META":
+            try:
+                self.meta_version = fmt.dec(ev.tok[2])
+            except Exception:
+                pass
+            return out
         if k == "H":
             self.reset()
             self.migration = "migration" in b.ev
@@ -380,11 +434,108 @@ class Oracle:
                         got = ask_full(fmt.Ask(["~"] + q))[1:] if t[1] == "get_ask" else bid_full(fmt.Bid(["~"] + q))[1:]
                         if want != got:
                             out.append(("C16", None, "query result differs from the stored order"))
+                        left = slot.size if t[1] == "get_ask" else slot.rem_base
+                        if left < 1 and not (self.migration or self.seeded):
+                            out.append(("C16", None, "query returns an order with nothing remaining (completely filled / rejected)"))
                 elif isinstance(slot, (fmt.Ask, fmt.Bid)):
                     out.append(("C16", None, "query failed for an order on the book"))
             return out
         if k not in ("EXEC", "PEXEC", "INST", "MIGRATE", "PMIGRATE") and not k.startswith("SEED"):
             return out
+        # ---- C13: instantiate accepted exactly for coherent messages, stored = request
+        if k == "INST" and len(ev.tok) >= 16:
+            try:
+                t = ev.tok[2:]
+                want = inst_coherent(t)
+                if want is not None and want != bool(b.ok):
+                    out.append(("C13", None, "instantiate %s although the message is %scoherent" % ("accepted" if b.ok else "refused", "" if want else "in")))
+                if b.ok and b.cfg is not None:
+                    c = b.cfg
+                    def fee(rate, acct):
+                        return None if rate is None or (rate == "" and acct == "") else (acct, rate)
+                    exp = (fmt.dec(t[0]), "", fmt.dec(t[1]), fmt.dlist(t[2]), fmt.dlist(t[3]), fmt.dlist(t[4]), fmt.dlist(t[5]),
+                           fee(fmt.dopt(t[6]), fmt.dopt(t[7])), fee(fmt.dopt(t[8]), fmt.dopt(t[9])), fmt.dlist(t[10]), fmt.dlist(t[11]),
+                           int(t[12]), int(t[13]))
+                    got = (c.name, c.bind, c.base, c.conv, c.quotes, c.approvers, c.executors, c.ask_fee, c.bid_fee, c.ask_attrs,
+                           c.bid_attrs, c.precision, c.increment)
+                    if exp != got:
+                        out.append(("C13", None, "stored configuration differs from the instantiate message"))
+            except Exception:
+                pass
+        # ---- C12: what an accepted configuration change may do
+        if k in ("EXEC", "PEXEC") and ev.sub == "modify_contract" and b.ok and self.cfg is not None and b.cfg is not None:
+            try:
+                a = ev.args
+                ap, ex = fmt.dopt(a[0], fmt.dlist), fmt.dopt(a[1], fmt.dlist)
+                afr, afa, bfr, bfa = fmt.dopt(a[2]), fmt.dopt(a[3]), fmt.dopt(a[4]), fmt.dopt(a[5])
+                aat, bat = fmt.dopt(a[6], fmt.dlist), fmt.dopt(a[7], fmt.dlist)
+                c0, c1 = self.cfg, b.cfg
+                if (c1.name, c1.bind, c1.base, c1.conv, c1.quotes, c1.precision, c1.increment) != \
+                        (c0.name, c0.bind, c0.base, c0.conv, c0.quotes, c0.precision, c0.increment):
+                    out.append(("C12", None, "market parameters changed by a configuration request"))
+                if c1.approvers != (ap if ap is not None else c0.approvers) or c1.executors != (ex if ex is not None else c0.executors):
+                    out.append(("C12", None, "approver / executor list not installed as supplied (or changed although omitted)"))
+                if c1.ask_attrs != (aat if aat is not None else c0.ask_attrs) or c1.bid_attrs != (bat if bat is not None else c0.bid_attrs):
+                    out.append(("C12", None, "required attributes not installed as supplied"))
+                if (ap is not None and not ap) or (ex is not None and not ex):
+                    out.append(("C12", None, "approver / executor list set empty"))
+                for side, book, rate, acct, f0, f1, attrs in (("ask", self.asks, afr, afa, c0.ask_fee, c1.ask_fee, aat),
+                                                               ("bid", self.bids, bfr, bfa, c0.bid_fee, c1.bid_fee, bat)):
+                    exp = f0 if rate is None else (None if (rate == "" and acct == "") else (acct, rate))
+                    if f1 != exp:
+                        out.append(("C12", None, "%s fee not installed as supplied" % side))
+                    if book:
+                        if attrs is not None:
+                            out.append(("C12", None, "%s attributes changed while %ss are open" % (side, side)))
+                        r0 = parse_dec(f0[1]) if f0 else None
+                        r1 = parse_dec(f1[1]) if f1 else None
+                        if (f0 is None) != (f1 is None) or (r0 is not None and r1 is not None and r0 != r1):
+                            out.append(("C12", None, "%s fee rate changed while %ss are open" % (side, side)))
+                if (self.asks or self.bids) and ap is not None and not set(c0.approvers) <= set(ap):
+                    out.append(("C12", None, "an approver was dropped while orders are open"))
+            except Exception:
+                pass
+        # ---- C14 / C15: migration effect
+        if k in ("MIGRATE", "PMIGRATE") and b.ok and self.cfg is not None and b.cfg is not None:
+            try:
+                a = ev.tok[1:]
+                ap = fmt.dopt(a[0], fmt.dlist)
+                afr, afa, bfr, bfa = fmt.dopt(a[1]), fmt.dopt(a[2]), fmt.dopt(a[3]), fmt.dopt(a[4])
+                aat, bat = fmt.dopt(a[5], fmt.dlist), fmt.dopt(a[6], fmt.dlist)
+                c0, c1 = self.cfg, b.cfg
+                def feeexp(f0, rate, acct):
+                    return f0 if rate is None else (None if (rate == "" and acct == "") else (acct, rate))
+                exp = (c0.name, c0.bind, c0.base, c0.conv, c0.quotes, ap if ap is not None else c0.approvers, c0.executors,
+                       feeexp(c0.ask_fee, afr, afa), feeexp(c0.bid_fee, bfr, bfa), aat if aat is not None else c0.ask_attrs,
+                       bat if bat is not None else c0.bid_attrs, c0.precision, c0.increment)
+                got = (c1.name, c1.bind, c1.base, c1.conv, c1.quotes, c1.approvers, c1.executors, c1.ask_fee, c1.bid_fee,
+                       c1.ask_attrs, c1.bid_attrs, c1.precision, c1.increment)
+                if exp != got:
+                    out.append(("C14", None, "configuration after migrate is not the old one with exactly the requested overrides"))
+                if sorted(ask_full(x) for x in b.asks.values()) != sorted(ask_full(x) for x in self.asks.values()):
+                    out.append(("C14", None, "migrate changed the ask book"))
+                if b.ver is None or b.ver[1] != (self.meta_version or b.ver[1]):
+                    out.append(("C14", None, "migrate did not stamp the package version"))
+                if set(b.bids) != set(self.bids):
+                    out.append(("C15", None, "migrate lost or invented a bid"))
+                for key, old in self.bids.items():
+                    new = b.bids.get(key)
+                    if isinstance(old, fmt.Bid) and (not isinstance(new, fmt.Bid) or bid_full(new) != bid_full(old)):
+                        out.append(("C15", None, "migrate rewrote a current-format bid"))
+                    if isinstance(old, tuple) and old[0] == "v2" and isinstance(new, fmt.Bid):
+                        f = old[1]     # id owner base_denom base_amt quote_denom quote_amt fee price events
+                        sb = sq = sf = 0
+                        for evt in ([] if f[8] == "[]" else f[8].split(";")):
+                            p = evt.split(":")
+                            if p[0] in ("F", "J"):
+                                sb += int(p[1]); sq += int(p[2]); sf += 0 if p[3] == "-" else int(p[3])
+                            else:
+                                sq += int(p[1]); sf += 0 if p[2] == "-" else int(p[2])
+                        if (new.acc_base, new.acc_quote, new.acc_fee) != (sb, sq, sf) or \
+                                (fmt.enc(new.id), fmt.enc(new.owner), new.base_amt, new.quote_amt, fmt.enc(new.price)) != (f[0], f[1], int(f[3]), int(f[5]), f[7]):
+                            out.append(("C15", None, "converted bid does not preserve the remaining amounts of its event log"))
+            except Exception:
+                pass
         probe = k in ("PEXEC", "PMIGRATE")
         # ---- C05: accepted privileged request => role (state before)
         if b.ok and k in ("EXEC", "PEXEC") and self.cfg is not None:
@@ -414,7 +565,7 @@ class Oracle:
         if b.ok and k in ("EXEC", "PEXEC") and ev.sub == "execute_match" and self.cfg is not None and not self.seeded:
             for cls, msg in self.match_check(ev):
                 out.append(("C03", cls, msg))
-                if k == "EXEC" and self.tainted is None and "whole number" in msg:
+                if k == "EXEC" and self.tainted is None and cls == "K_inexact":
                     self.tainted = "K_inexact"
         clean = self.tainted is None and not self.migration and not self.seeded
         # ---- C06: exit probes
@@ -592,6 +743,26 @@ class Oracle:
                             out.append(("C09", cls, "bid %s holds fee %d, pro-rata share is %d" % (x.key[:8], x.rem_fee, want)))
                             if attrib and cls is None and x.key in (ev.ids()[1] or []):
                                 out.append((attrib, None, "after %s bid %s holds fee %d, pro-rata share is %d" % (ev.sub, x.key[:8], x.rem_fee, want)))
+        # ---- C11: every bid on the book is internally consistent (unspent = price * unfilled, something left)
+        if k == "EXEC" and b.ok and clean:
+            for x in b.bids.values():
+                if isinstance(x, fmt.Bid):
+                    pr = parse_dec(x.price)
+                    if x.rem_base < 1 or (pr is not None and pr * x.rem_base != x.rem_quote):
+                        out.append(("C11", None, "bid %s: unspent quote %d, price*unfilled is %s" % (x.key[:8], x.rem_quote, None if pr is None else pr * x.rem_base)))
+            for a in b.asks.values():
+                if a.size < 1 or (a.cls[0] == "basic") != (self.cfg is not None and a.base == self.cfg.base):
+                    out.append(("C11", None, "ask %s inconsistent (size %d, class %s, base %s)" % (a.key[:8], a.size, a.cls[0], a.base)))
+                if a.cls[0] == "ready" and a.cls[3] != a.size:
+                    out.append(("C08", None, "ask %s: approver amount %d, remaining size %d" % (a.key[:8], a.cls[3], a.size)))
+        # ---- C04 / C06: an exit whose payout uses the wrong mechanism is rejected by the chain
+        if b.ok and k in ("EXEC", "PEXEC") and ev.sub in REVERSE:
+            for m in b.msgs:
+                wrong = (m[0] == "bank" and any(self.restricted(d) for _, d in m[2])) or (m[0] == "xfer" and not self.restricted(m[3][1]))
+                if wrong:
+                    out.append(("C04", None, "payout of %s uses the wrong transfer mechanism" % ev.sub))
+                    if k == "PEXEC" and ev.sub in ("cancel_ask", "cancel_bid", "expire_ask", "expire_bid"):
+                        out.append(("C06", None, "exit payout uses the wrong transfer mechanism: the chain would refuse it"))
         # ---- C01 ledger (histories that start with an accepted instantiate, no seeds, clean)
         if k == "INST" and b.ok:
             self.started = True
